@@ -2,6 +2,7 @@
 package main
 
 import (
+	"bufio"
 	"bytes"
 	"fmt"
 	"io"
@@ -93,6 +94,13 @@ func lossless(recs []record, allCuts bool) {
 	}
 	check(strings.NewReader(stream), nil)
 	check(&faultio.FragReader{Data: []byte(stream), MaxPerCall: 1}, []int{-1})
+	// buffered readers of several sizes (a caller may well wrap the helper's pipe)
+	check(bufio.NewReaderSize(strings.NewReader(stream), 16), []int{-16})
+	check(bufio.NewReaderSize(&faultio.FragReader{Data: []byte(stream), MaxPerCall: 7}, 64), []int{-64})
+	if len(stream) > 200 {
+		check(bufio.NewReaderSize(strings.NewReader(stream), 256), []int{-256})
+		check(bufio.NewReader(strings.NewReader(stream)), []int{-4096})
+	}
 	if allCuts {
 		n := len(stream)
 		for a := 1; a < n; a++ {
